@@ -37,11 +37,11 @@ IP = "interval with (i_prec 70)"
 
 # ----------------------------------------------------------------------------- inputs
 
-def gen_p4(n, seed):
+def gen_p4(n, seed, masses=None):
     import tensorflow as tf
     from tf_pwa.phasespace import PhaseSpaceGenerator
     tf.random.set_seed(seed)
-    g = PhaseSpaceGenerator(MASSES[0], MASSES[1])
+    g = PhaseSpaceGenerator(MASSES[0], masses or MASSES[1])
     p = np.stack([np.array(i) for i in g.generate(n)], axis=1)
     return p.reshape(-1, 4)
 
@@ -97,8 +97,13 @@ def make_scenario(ctx, rnd, sid, model, ngroup, gauss, clip=False, R=1, opts=Non
             nb = R * rnd.randrange(1, 4)
         s.nd.append(nd); s.nm.append(nm); s.nb.append(nb if s.bgkind != "none" else 0)
         seed = rnd.randrange(1, 10 ** 6)
-        f = os.path.join(d, "data%d.dat" % gi); np.savetxt(f, gen_p4(nd, seed)); data["data"].append([f])
-        f = os.path.join(d, "phsp%d.dat" % gi); np.savetxt(f, gen_p4(nm, seed + 1)); data["phsp"].append([f])
+        fm = [0.3, 0.3, 0.5] if opts.get("identical") else None  # final-state masses
+        f = os.path.join(d, "data%d.dat" % gi); np.savetxt(f, gen_p4(nd, seed, fm)); data["data"].append([f])
+        f = os.path.join(d, "phsp%d.dat" % gi); np.savetxt(f, gen_p4(nm, seed + 1, fm)); data["phsp"].append([f])
+        if opts.get("cpv"):  # events of both charges
+            for key, n in (("data_charge", nd), ("phsp_charge", nm)):
+                f = os.path.join(d, "%s%d.dat" % (key, gi))
+                np.savetxt(f, np.array([rnd.choice([1.0, -1.0]) for _ in range(n)])); data.setdefault(key, []).append(f)
         w = gen_weights(rnd, nd // R, s.wkind)
         if R > 1:  # per-sample weights: event weight x positive smearing weights (event sums stay away from 0)
             ev = w if w is not None else [1.0] * (nd // R)
@@ -109,7 +114,7 @@ def make_scenario(ctx, rnd, sid, model, ngroup, gauss, clip=False, R=1, opts=Non
         if v is not None:
             f = os.path.join(d, "vw%d.dat" % gi); np.savetxt(f, np.array(v)); vw.append(f)
         if s.bgkind != "none":
-            f = os.path.join(d, "bg%d.dat" % gi); np.savetxt(f, gen_p4(nb, seed + 2)); bgs.append([f])
+            f = os.path.join(d, "bg%d.dat" % gi); np.savetxt(f, gen_p4(nb, seed + 2, fm)); bgs.append([f])
             if s.bgkind == "file":
                 f = os.path.join(d, "bgw%d.dat" % gi)
                 np.savetxt(f, np.array([round(rnd.uniform(0.05, 0.7), 3) for _ in range(nb)])); bgw.append(f)
@@ -165,6 +170,14 @@ def make_scenario(ctx, rnd, sid, model, ngroup, gauss, clip=False, R=1, opts=Non
         },
         "constrains": {"particle": None, "decay": None},
     }
+    # shapes used ONLY by the fixed reproducers of open findings (amplitude-layer features inside the cached models)
+    if opts.get("identical"):
+        s.cfg["data"]["identical_particles"] = [["B", "C"]]
+        s.cfg["particle"]["$finals"]["C"]["mass"] = 0.3
+        s.cfg["particle"]["R_CD"] = dict(s.cfg["particle"]["R_BD"])
+    if opts.get("cpv"):
+        s.cfg["decay"]["R_BC"] = ["B", "C", {"model": "gls-cpv"}]
+        s.cfg["decay"]["A"][0] = ["R_BC", "D", {"model": "gls-cpv"}]
     if gauss:
         s.gc = {"A->R_BD.CR_BD->B.D_total_0r": [round(rnd.uniform(0.5, 1.5), 3), round(rnd.uniform(0.05, 0.5), 3)]}
         if floatmw and rnd.random() < 0.7:
@@ -794,6 +807,8 @@ def run_open_rescale_below_clip(ctx, sid):
     rescaling of all amplitudes once clip_log acts on the unnormalised density (the regular stream stays above the threshold:
     hypothesis eps < f, eps < c f of C06_nll_scale_invariant; Coq witness C06_nll_scale_below_clip_refuted)"""
     from tf_pwa.config_loader import ConfigLoader
+    import bootstrap
+    bootstrap.seed_all(60605)  # the loader draws the initial values of the parameters from the global generators
     rnd = random.Random(60605)
     s = make_scenario(ctx, rnd, sid, "default", 1, False)
     cfg = ConfigLoader(s.cfg)
@@ -816,6 +831,52 @@ def run_open_rescale_below_clip(ctx, sid):
             fingerprint="rescaling:clip_log_unnormalised",
             failing_input={"config": s.cfg, "batch": 7, "params": x, "amplitude_scale": c, "nll": y0, "nll_rescaled": y1,
                            "nll_gradval": g0, "nll_gradval_rescaled": g1, "max_density_after_rescaling": fmax * c * c}))
+    return [], []
+
+
+OPEN_AMP = {  # name -> (likelihood model, scenario options, site, fingerprint)
+    "identical_cached_amp": ("cached_amp", {"identical": True},
+                             "cached likelihood models (experimental/build_amp.py, opt_int.py) with declared identical particles",
+                             "identical_particles:cached_nll_grad"),
+    "cpv_cached_int": ("cached_int", {"cpv": True},
+                       "cached_int (experimental/opt_int.py) with CP-violating couplings (gls-cpv) and events of both charges",
+                       "cp_violation:cached_int_nll_grad"),
+}
+
+
+def run_open_amp(ctx, sid, name):
+    """OPEN findings (fixed reproducers, independent of the run's seed): the cached likelihood models evaluate the value
+    alongside the gradient with their own amplitude code, which ignores identical-particle symmetrisation, parent polarisation
+    and the charge of the event (CP-violating couplings).  The regular stream contains none of these amplitude-layer features."""
+    from tf_pwa.config_loader import ConfigLoader
+    model, opts, site, fp = OPEN_AMP[name]
+    import bootstrap
+    bootstrap.seed_all(60607)
+    rnd = random.Random(60607 + sorted(OPEN_AMP).index(name))
+    s = make_scenario(ctx, rnd, sid, model, 1, False, opts=opts)
+    cfg = ConfigLoader(s.cfg)
+    amp = cfg.get_amplitude()
+    all_data, raws = loader_inputs(cfg, s)
+    fcn = cfg.get_fcn(all_data=all_data, batch=7)
+    ctx.count("open_finding_reproducer:" + name)
+    for pi in range(3):
+        x = random_point(rnd, cfg.vm)
+        x = {k: v for k, v in x.items() if not (k.endswith("_mass") or k.endswith("_width"))}
+        if opts.get("cpv"):  # CP-violating parts of the couplings (fixed parameters of this small model: set, not fitted)
+            dl = {k: round(rnd.uniform(-0.6, 0.6), 3) for k in sorted(cfg.get_params()) if k.endswith("deltar") or k.endswith("deltai")}
+            cfg.set_params(dl)
+            x = dict(x, **{k: v for k, v in dl.items() if k in cfg.vm.trainable_vars})
+        p = capture_part(model, fcn, amp, raws[0], x)
+        dv = float(doc_value(model, p))
+        ctx.evaluations += 2
+        if p.gradval is None or not abs(p.gradval - dv) <= 1e-8 * (abs(dv) + 1):
+            ctx.fails.append(dict(
+                layer="gradval", case="open_" + name,
+                detail="value of nll_grad = %r, documented formula on amp() = %r, __call__ = %r [model=%s, %s]" % (p.gradval, dv, p.call, model, name),
+                site=site, fingerprint=fp,
+                failing_input=dict(record_of(s, 0, 7, x, p, None, pi, "open:" + name), config=s.cfg,
+                                   all_parameters={k: float(v) for k, v in cfg.get_params().items()})))
+            break
     return [], []
 
 
@@ -851,6 +912,8 @@ def plan(ctx, rnd):
             sc.append((sid, "idreuse:" + m, 1, False, False)); sid += 1
         if rep == 0:
             sc.append((sid, "open:rescale_below_clip", 1, False, False)); sid += 1
+            for name in sorted(OPEN_AMP):
+                sc.append((sid, "open:" + name, 1, False, False)); sid += 1
     only = os.environ.get("VERIF_ONLY")  # debugging aid: restrict to some likelihood models
     if only:
         sc = [x for x in sc if x[1].split(":")[0] in only.split(",") or x[1] in only.split(",")]
@@ -939,9 +1002,11 @@ def _worker(args):
             if m == "multiconfig":
                 cs, rs = run_multiconfig(acc, srnd, sid)
             elif m.startswith("idreuse:"):
-                cs, rs = run_idreuse(acc, srnd, sid, m.split(":")[1], 40 if tier == "quick" else 80)
+                cs, rs = run_idreuse(acc, srnd, sid, m.split(":")[1], 30 if m.endswith("cached_int") else 40 if tier == "quick" else 80)
             elif m == "open:rescale_below_clip":
                 cs, rs = run_open_rescale_below_clip(acc, sid)
+            elif m.startswith("open:"):
+                cs, rs = run_open_amp(acc, sid, m.split(":")[1])
             else:
                 s = make_scenario(acc, srnd, sid, m, ngroup, gauss, clip, R, opts)
                 cs, rs = run_scenario(acc, srnd, s, 1 if tier == "quick" else 2, all_batches=((ngroup == 1 and m not in ("cached_int", "cached_amp", "cfit_cached")) or tier != "quick"))
@@ -961,7 +1026,13 @@ def run(ctx):
                 "{no bg, bg_weight constant, per-event bg weights, bg without weights -> -w_bkg} x {unit,weighted} MC x Gaussian constraints; "
                 "8-32 data, 3-8 bg, 10-30 MC events per set; random parameter point (couplings, mass, width); one Coq-Interval goal per layer "
                 "(W,V,C,G) per data set + totals, and the value alongside the gradient for batch sizes from {1,3,N-1,N,N+5} "
-                "(all five for single data sets); distinct = (scenario, point, batch)")
+                "(all five for single data sets); distinct = (scenario, point, batch).  Further families: per-set configuration entries "
+                "given as ONE scalar (cfit bg_frac) with 2-3 data sets; a second phase handing the SAME ConfigLoader one data set more "
+                "(every data set must get its FCN); MultiConfig([2 configs], total_same).get_fcn() as first call (sum of parts + all "
+                "Gaussian terms); toy loop of 40 FCNs rebuilt from one ConfigLoader after del + gc.collect for the cached models.  "
+                "Stated exclusions of the regular stream (each with ONE fixed reproducer reported as open finding): densities below the "
+                "clip threshold 1e-6 under a common rescaling (hypothesis of C06_nll_scale_invariant); identical particles and "
+                "CP-violating couplings inside the cached models (amplitude-layer features; the likelihood layer takes densities as inputs)")
     common.theorem_stage(ctx)
     items = [(ctx.dir, ctx.tier, it, rnd.randrange(1 << 60)) for it in plan(ctx, rnd)]
     # heavier scenarios first
@@ -1023,7 +1094,8 @@ def run(ctx):
     return common.finish(ctx, search=search, technique=TECHNIQUE, extra_assumptions=[
         "densities f_i = amp(x_i), g_j = amp(y_j) are the implementation's own outputs (amplitude layer: C01-C05); cached_int/cached_amp/cfit_cached are compared against amp() within the NLL tolerance",
         "real-number model; float rounding absorbed by tolerance 1e-10 x (|value| + sum of |terms|); weights 1e-12 relative",
-        "inject_mc (Model_new), resolution_size > 1, constr_frac / cfit_constr_frac / simple_chi2 and using_mix_likelihood are not covered",
+        "inject_mc (Model_new), constr_frac / cfit_constr_frac / simple_chi2, using_mix_likelihood and `extended: True` combined with simple / simple_clip / cached_amp / cached_int (silently not extended) are not covered",
+        "the model describes the code with /verif/build/fix_C06/patch_{1,2,3,4,10}.diff applied",
     ])
 
 
